@@ -26,7 +26,7 @@ pub enum Kind {
     ManyClasses,
     /// an entry, n filler methods (2n distinct strings), the same (obfuscated, original) name again
     Straddle,
-    /// 500 classes x 1000 methods (sections > 16 MiB); thorough only
+    /// 500 classes x 1000 methods (sections > 16 MiB)
     Giant,
 }
 
@@ -158,7 +158,8 @@ pub fn cases(ctx: &Ctx, prop: &str) -> Vec<ScaleCase> {
             out.push(ScaleCase { kind, n: 65537, prop: prop.to_string() });
         }
     }
-    if ctx.tier == Tier::Thorough && (prop == "C09" || prop == "C14") {
+    // sections > 16 MiB: in the quick tier only for C09 (the layout decoder is the cheapest oracle for it)
+    if prop == "C09" || (ctx.tier == Tier::Thorough && prop == "C14") {
         out.push(ScaleCase { kind: Kind::Giant, n: 500_000, prop: prop.to_string() });
     }
     out
